@@ -244,6 +244,9 @@ struct Run<'a> {
     /// hostile input whose effect on the victim's state the harness does not model (literal frames,
     /// raw bytes) has been sent: the error class of a later template violation is then not asserted
     unmodelled_input: bool,
+    /// the puppet sent bytes that may parse as a CONNECTION_CLOSE (a victim that is already closing then
+    /// enters the draining state and, per RFC 9000 10.2.2, may answer with one NO_ERROR close)
+    peer_close_possible: bool,
 }
 
 impl<'a> Run<'a> {
@@ -734,6 +737,11 @@ impl<'a> Run<'a> {
                 self.unmodelled_input = true;
             }
             match it {
+                HF::Lit(Frame::ConnectionClose { .. }) | HF::Lit(Frame::ApplicationClose { .. }) => self.peer_close_possible = true,
+                HF::Raw(b) if b.iter().any(|x| *x == 0x1c || *x == 0x1d) => self.peer_close_possible = true,
+                _ => {}
+            }
+            match it {
                 HF::Lit(f) => {
                     if let Frame::NewConnectionId { cid, .. } = f {
                         if self.pw.p.my_cids.len() < 64 && !cid.is_empty() {
@@ -798,7 +806,13 @@ impl<'a> Run<'a> {
         // The endpoint itself may answer stray Initial packets with a stateless CONNECTION_CLOSE
         // (Initial space only), so compare with every close seen, not just the first
         if let (Some(lc), false) = (code, self.pw.p.closes.is_empty()) {
-            if !self.victim_closed_locally && !self.pw.p.closes.iter().any(|wc| !wc.app && wc.code == lc) {
+            // a victim whose own close was still held back (anti-amplification on a fresh path) when the
+            // peer's close arrived is draining: its single permitted packet carries NO_ERROR
+            let draining_reply = self.peer_close_possible && self.pw.p.closes.iter().any(|wc| !wc.app && wc.code == 0 && wc.reason.is_empty());
+            if !self.victim_closed_locally && !draining_reply && !self.pw.p.closes.iter().any(|wc| !wc.app && wc.code == lc) {
+                if std::env::var("QV_TRACE").is_ok() {
+                    eprintln!("{}", self.pw.w.dump_trace(0, 400));
+                }
                 return Err(CaseOut::fail("c03/close-code-mismatch", format!("after {what}: application sees transport error 0x{lc:x} but the CONNECTION_CLOSE frames on the wire carry {:?}", self.pw.p.closes)));
             }
         }
@@ -1164,7 +1178,7 @@ pub fn case(c: &Case) -> CaseOut {
             honest_k = Some(k);
         }
     }
-    let mut r = Run { c, pw, labels: vec![], last_pn: [0; 3], allowed: None, template_sent: false, victim_streams: vec![], victim_closed_locally: false, my_cid_seq: 0, log: vec![], past_auth: false, start_live, sent: Default::default(), data_sent: 0, ncid_seq: 0, ncid_retired: 0, af_seq: 0, retired_victim: Default::default(), unmodelled_input: false };
+    let mut r = Run { c, pw, labels: vec![], last_pn: [0; 3], allowed: None, template_sent: false, victim_streams: vec![], victim_closed_locally: false, my_cid_seq: 0, log: vec![], past_auth: false, start_live, sent: Default::default(), data_sent: 0, ncid_seq: 0, ncid_retired: 0, af_seq: 0, retired_victim: Default::default(), unmodelled_input: false, peer_close_possible: false };
     r.pw.start();
     // phases: how far the handshake gets before hostile input starts
     let mut ok = true;
@@ -1607,7 +1621,7 @@ pub fn case_tp(c: &TpCase) -> CaseOut {
         pw.p.tp.replace_raw = Some(raw);
     }
     let case_dummy = Case { seed: c.seed, victim_client: c.victim_client, cfg: c.cfg.clone(), tp: PuppetTp::default(), puppet_cid_len: 8, phase: 2, honest: false, calm: 0, steps: vec![] };
-    let mut r = Run { c: &case_dummy, pw, labels: vec![], last_pn: [0; 3], allowed: None, template_sent: false, victim_streams: vec![], victim_closed_locally: false, my_cid_seq: 0, log: vec![], past_auth: false, start_live, sent: Default::default(), data_sent: 0, ncid_seq: 0, ncid_retired: 0, af_seq: 0, retired_victim: Default::default(), unmodelled_input: false };
+    let mut r = Run { c: &case_dummy, pw, labels: vec![], last_pn: [0; 3], allowed: None, template_sent: false, victim_streams: vec![], victim_closed_locally: false, my_cid_seq: 0, log: vec![], past_auth: false, start_live, sent: Default::default(), data_sent: 0, ncid_seq: 0, ncid_retired: 0, af_seq: 0, retired_victim: Default::default(), unmodelled_input: false, peer_close_possible: false };
     r.pw.start();
     if c.victim_client {
         // server puppet: the original DCID is known once the victim's Initial arrived; the encoded
@@ -1764,6 +1778,130 @@ pub fn arb_tp_case() -> impl Strategy<Value = TpCase> {
         cfg.crypto_buf = cfg.crypto_buf.max(2048);
         TpCase { seed, victim_client, cfg, items, steps }
     })
+}
+
+// ---------------------------------------------------------------------------------------------
+// libFuzzer entry points (coverage-guided extension of the thorough tier, see bin/fuzz)
+// ---------------------------------------------------------------------------------------------
+
+fn fuzz_cfg(sel: u8) -> VictimCfg {
+    let base = VictimCfg { ack_freq: None, cid_len: 8, dgram: Some(1200), recv_window: 20_000, stream_window: 6_000, max_bidi: 3, max_uni: 3, crypto_buf: 4096, migration: true, idle_ms: None };
+    match sel % 4 {
+        0 => base,
+        1 => VictimCfg { ack_freq: Some(AfSpec { threshold: 3, max_ack_delay_ms: Some(40), reordering: 2 }), ..base },
+        2 => VictimCfg { cid_len: 0, dgram: None, recv_window: 600, stream_window: 300, max_bidi: 1, max_uni: 0, crypto_buf: 700, ..base },
+        _ => VictimCfg { ack_freq: Some(AfSpec { threshold: 0, max_ack_delay_ms: None, reordering: 0 }), cid_len: 20, idle_ms: Some(800), ..base },
+    }
+}
+
+/// Decode a fuzzer input into a `Case`: byte 0 = role, phase and victim configuration; then records
+/// `[ctl][len][len bytes]` — a packet whose frame area is exactly those bytes (space, packet-number
+/// choice, source address and a leading genuine ACK chosen by `ctl`), or, for `ctl >= 0xc0`, a victim
+/// operation / a wait. The case is a pure function of the bytes.
+pub fn fuzz_decode_frames(data: &[u8]) -> Option<Case> {
+    let (&b0, mut rest) = data.split_first()?;
+    let mut steps = vec![];
+    while let Some((&ctl, r)) = rest.split_first() {
+        let Some((&len, r)) = r.split_first() else { break };
+        let n = (len as usize).min(r.len());
+        let (body, r) = r.split_at(n);
+        rest = r;
+        if ctl >= 0xc0 {
+            let a = body.first().copied().unwrap_or(0);
+            let n16 = u16::from_le_bytes([body.get(1).copied().unwrap_or(0), body.get(2).copied().unwrap_or(0)]);
+            steps.push(match ctl & 0x0f {
+                0 => Step::Victim(VOp::OpenWrite { uni: a & 1 != 0, n: n16 % 3000, finish: a & 2 != 0 }),
+                1 => Step::Victim(VOp::ReadSome),
+                2 => Step::Victim(VOp::StopFirst),
+                3 => Step::Victim(VOp::ResetFirst),
+                4 => Step::Victim(VOp::Datagram(n16 % 1200)),
+                5 => Step::Victim(VOp::Ping),
+                6 => Step::Victim(VOp::KeyUpdate),
+                7 => Step::Victim(VOp::SetWindows),
+                8 => Step::Victim(VOp::Close),
+                9 => Step::Garbage { bytes: body.to_vec(), other_addr: a & 1 != 0 },
+                _ => Step::Wait(1 + n16 as u32 * 40),
+            });
+            continue;
+        }
+        let space = match ctl & 3 {
+            3 => 0,
+            2 => 1,
+            _ => 2,
+        };
+        let pn = match (ctl >> 3) & 3 {
+            1 => PnSel::Dup,
+            2 => PnSel::Skip(1 + (ctl >> 6) as u16 * 700),
+            _ => PnSel::Next,
+        };
+        let mut items = vec![];
+        if ctl & 0x20 != 0 {
+            items.push(HF::GoodAck);
+        }
+        items.push(HF::Raw(body.to_vec()));
+        steps.push(Step::Pkt { space, items, pn, other_addr: ctl & 4 != 0, pad: 0 });
+        if steps.len() >= 64 {
+            break;
+        }
+    }
+    if steps.is_empty() {
+        return None;
+    }
+    Some(Case { seed: 0xf022 + (b0 >> 5) as u64, victim_client: b0 & 1 != 0, cfg: fuzz_cfg(b0 >> 3), tp: PuppetTp::default(), puppet_cid_len: 8, phase: if b0 & 6 == 6 { 0 } else if b0 & 6 == 4 { 1 } else { 2 }, honest: false, calm: 0, steps })
+}
+
+/// Transport parameters straight from the fuzzer: the genuine CID parameters followed by the bytes
+pub fn fuzz_decode_tp(data: &[u8]) -> Option<TpCase> {
+    let (&b0, rest) = data.split_first()?;
+    let mut cfg = fuzz_cfg(b0 >> 3);
+    cfg.crypto_buf = cfg.crypto_buf.max(2048);
+    let items = if b0 & 2 != 0 { vec![TpItem::RawTail(rest.to_vec()), TpItem::Cids] } else { vec![TpItem::Cids, TpItem::RawTail(rest.to_vec())] };
+    Some(TpCase { seed: 0xf023, victim_client: b0 & 1 != 0, cfg, items, steps: vec![Step::Pkt { space: 2, items: vec![HF::Lit(Frame::Ping)], pn: PnSel::Next, other_addr: false, pad: 0 }] })
+}
+
+fn fuzz_judge<T: Serialize>(check: &str, c: &T, out: Result<CaseOut, PanicInfo>) {
+    static KNOWN: std::sync::OnceLock<Vec<String>> = std::sync::OnceLock::new();
+    let known = KNOWN.get_or_init(|| load_known().into_iter().filter(|k| k.property == "C03" && k.status == "known").map(|k| k.signature).collect());
+    let out = match out {
+        Ok(o) => o,
+        Err(p) => panic_to_case(p, true),
+    };
+    match out.verdict {
+        Verdict::Fail { sig, msg } if !known.iter().any(|k| *k == sig) => {
+            let scenario = serde_json::to_value(c).unwrap_or(serde_json::Value::Null);
+            let h = hash64(&scenario.to_string()) & 0xffff_ffff_ffff;
+            let dir = std::path::PathBuf::from(verif_root()).join("replays");
+            let _ = std::fs::create_dir_all(&dir);
+            let path = dir.join(format!("C03-fuzz-{h:012x}.json"));
+            let f = Failure { property: "C03".into(), check: check.into(), sig: sig.clone(), msg: msg.clone(), scenario };
+            let _ = std::fs::write(&path, serde_json::to_string_pretty(&f).unwrap_or_default());
+            println!("VIOLATION property=C03 replay={}", path.display());
+            panic!("C03 violation {sig}\n{msg}\nreplay: {}", path.display());
+        }
+        Verdict::Inconclusive(m) if m.starts_with("harness panic") => {
+            // a harness limitation, never an alarm: say so once and go on
+            static SAID: std::sync::Once = std::sync::Once::new();
+            SAID.call_once(|| eprintln!("INCONCLUSIVE (harness): {m}"));
+        }
+        _ => {}
+    }
+}
+
+pub fn fuzz_oracle(tp: bool, data: &[u8]) {
+    static HOOK: std::sync::Once = std::sync::Once::new();
+    HOOK.call_once(install_panic_hook);
+    if data.len() > 4096 {
+        return;
+    }
+    if tp {
+        if let Some(c) = fuzz_decode_tp(data) {
+            let out = catch(|| case_tp(&c));
+            fuzz_judge("c03_tp", &c, out);
+        }
+    } else if let Some(c) = fuzz_decode_frames(data) {
+        let out = catch(|| case(&c));
+        fuzz_judge("c03_frames", &c, out);
+    }
 }
 
 pub fn run(report: &Report) -> i32 {
